@@ -226,7 +226,8 @@ def oracle(run, secs, eol, fin):
         ok = "ok" in r3
         if ok:
             s3 = dict(r3["ok"]["sections"])
-            s3[key] = drop_planted(s3[key], name)
+            if key in s3:
+                s3[key] = drop_planted(s3[key], name)
             ok = s3 == base["sections"]
             n = len(base["data"]) if secs3[i]["kind"] != "C" else len(base["data"])
             ok = ok and r3["ok"]["data"][:n] == base["data"] if secs3[i]["kind"] == "C" else ok and r3["ok"]["data"] == base["data"]
